@@ -74,6 +74,9 @@ pub fn run(cfg: &Cfg, rep: &mut Report) {
     let regexes: Vec<(&str, Flags)> = vec![
         ("\\d+", f("")), ("\\d*", f("")), ("", f("")), ("a", f("")), ("a*", f("")), ("a*?", f("")), ("\\b", f("")), ("(?=a)", f("")), ("é", f("")), ("é*", f("")), ("[^a]", f("")), (".", f("s")), ("^", f("m")), ("$", f("m")), ("a|é|", f("")), ("(a)(1)?", f("")),
         ("\\B", f("")), ("1+|a", f("")), ("zzz", f("")), ("(?<=a)1", f("")), ("(?<=a)", f("")), ("a+?", f("")), ("\u{10000}?", f("u")), ("[a1]{2}", f("")), ("^a", f("")), ("a$", f("")), ("(?:)", f("u")), ("\\s*", f("")), ("x*", f("")), ("aa|a", f("")),
+        // anchors whose multiline-ness comes from an inline modifier rather than the regex-wide flag
+        ("(?m:^)a", f("")), ("(?m:^a)1?", f("")), ("(?m:^)", f("")), ("(?m:$)", f("")), ("a(?m:$)", f("")), ("(?-m:^)a", f("m")), ("(?-m:^)", f("m")), ("a(?-m:$)", f("m")), ("(?m:^)|1", f("")), ("(?:(?m:^)|é)a", f("")),
+        ("(?i:A)", f("")), ("(?s:.)", f("")), ("(?-s:.)", f("s")), ("(?-i:a)|1", f("i")), ("^a|^1", f("m")), ("(?=^)a", f("m")), ("(?<=^)a", f("m")), ("(?<=\n)a", f("")),
     ];
     // plus seeded structured patterns over the haystack alphabet (any accepted regex must honour
     // the contract, not only the hand-picked ones)
@@ -92,7 +95,7 @@ pub fn run(cfg: &Cfg, rep: &mut Report) {
     rep.add("generated_regexes", regexes.len() as u64);
     let alphabet: Vec<u32> = vec!['a' as u32, '1' as u32, 0xE9];
     let mut hays = gen::all_strings(&alphabet, if cfg.quick() { 5 } else { 7 });
-    for extra in ["ab12cd", "  a  ", "a\u{10000}a", "\u{10000}", "aaaa1111éééé", "a1\né\n", "\n\n", "1a1a1a1a1a1a1a1a1"] {
+    for extra in ["ab12cd", "  a  ", "a\u{10000}a", "\u{10000}", "aaaa1111éééé", "a1\né\n", "\n\n", "a\na\n1a\na", "a\n\na", "1\na1\na\n", "\na", "1a1a1a1a1a1a1a1a1"] {
         hays.push(extra.to_string());
     }
     let mut idx = 0u64;
